@@ -9,6 +9,7 @@
 #include "backends.hpp"
 #include "vcommon.hpp"
 #include "ctree.hpp"
+static int g_tree_depth = 3; // 5 in the thorough tier
 #include <deque>
 #include <optional>
 #include <unordered_set>
@@ -284,7 +285,7 @@ static void trees()
   cbB[0] = B.register_callback(pool_cb<0>);
   cbB[1] = B.register_callback(pool_cb<1>);
   std::vector<Tree> ts;
-  gen_trees(3, 3, ts, true);
+  gen_trees(g_tree_depth, 3, ts, true);
   {
     std::vector<Tree> extra;
     gen_trees(2, 3, extra, false);
@@ -409,7 +410,7 @@ static void trees()
   cbB[1] = B.register_callback(hcb<1>);
   // a filler through slot 59 still runs its own function
   std::vector<Tree> ts;
-  gen_trees(3, 3, ts, true);
+  gen_trees(g_tree_depth, 3, ts, true);
   void* sbp[2] = { &A, &B };
   g_hsb[0] = &A;
   g_hsb[1] = &B;
@@ -484,6 +485,8 @@ int main(int argc, char** argv)
 {
   parse(argc, argv);
   bool thorough = has_flag("--thorough");
+  if (thorough) g_tree_depth = 5;
+  if (g_args.replay && std::string(g_args.replay).rfind("tree|", 0) == 0) g_tree_depth = std::max(3, tree_str_depth(std::string(g_args.replay).substr(5)));
   if (g_args.replay) replay_case(g_args.replay);
   else {
     histories(thorough);
